@@ -475,7 +475,8 @@ func (parser *Parser) ParseExpression(depth int) (res Sexp, err error) {
 	case TokenSymbol:
 		if tok.str == "-" || tok.str == "+" {
 			// are we -Inf ?
-			tok2, err := parser.ParserPeekNextToken(0)
+			// plain peek: a final + or - is a complete datum, do not ask for more input
+			tok2, err := lexer.PeekNextToken(0)
 			if err != nil {
 				return SexpEnd, err
 			}
